@@ -12,7 +12,7 @@
 // Grammar (whitespace separated tokens, numbers via strtod => hex floats ok):
 //   tol <rel>
 //   case <id>
-//     prim <prim>
+//     prim <prim> | primt <transform> <prim>   (surfaces in the transformed frame)
 //     unit <label>
 //        boundary <media|exterior> <obj>
 //        background <0|1>
@@ -398,11 +398,10 @@ SPObj read_obj(Tokens& t, UnitCtx& c)
 }
 
 //! Dump the signed surfaces a primitive's build() emits (no transform)
-void dump_prim(Prim const& p, Tol const& tol)
+void dump_prim(Prim const& p, Tol const& tol, VariantTransform const& trans = NoTransformation{})
 {
     orangeinp::detail::CsgUnit unit;
     orangeinp::detail::CsgUnitBuilder ub{&unit, tol, BBox::from_infinite()};
-    VariantTransform const trans{NoTransformation{}};
     orangeinp::detail::IntersectSurfaceState css;
     css.transform = &trans;
     css.make_face_name = {};
@@ -590,10 +589,22 @@ int main()
             if (failed) continue;  // skip the rest of a failed case
             try
             {
-                if (c == "prim")
+                if (c == "prim" || c == "primt")
                 {
-                    std::string pk = t.next();
-                    dump_prim(read_prim(t, pk), tol);
+                    // errors of a single primitive do not abort the case
+                    try
+                    {
+                        VariantTransform tr{NoTransformation{}};
+                        if (c == "primt") tr = read_transform(t);
+                        std::string pk = t.next();
+                        dump_prim(read_prim(t, pk), tol, tr);
+                    }
+                    catch (std::exception const& e)
+                    {
+                        std::string msg = e.what();
+                        for (auto& ch : msg) if (ch == '\n') ch = ' ';
+                        std::cout << "prim-error " << msg << "\n";
+                    }
                 }
                 else if (c == "unit") { read_unit(t, cs); }
                 else if (c == "probes") { run_probes(t, cs, tol); }
